@@ -83,14 +83,13 @@ _base = {}
 
 
 def harness_hash(name):
-    """what *this* harness' verdict can depend on: /repo, the shared harness files (model, facade, reference) and
-    the one file that defines the harness — so that editing another harness file does not discard its verdict"""
+    """what *this* harness' verdict can depend on: /repo, the shared harness files (model, facade, macros, reference — not mod.rs,
+    which only lists modules) and the one file that defines the harness — so that editing another harness file does not discard its verdict"""
     spec = registry.HARNESSES[name]
     project = spec.get("project", "incrate")
     if "base" not in _base:
         _base["base"] = _hash_files([os.path.join(REPO, "src"), os.path.join(REPO, "Cargo.toml"),
                                      os.path.join(REPO, "Cargo.lock"), os.path.join(VERIF, "harness", "common"),
-                                     os.path.join(VERIF, "harness", "incrate", "mod.rs"),
                                      os.path.join(VERIF, "harness", "incrate", "spec.rs"),
                                      os.path.join(VERIF, "harness", "incrate", "spec_prims.rs"),
                                      os.path.join(HERE, "kdrive.py")])
@@ -203,6 +202,32 @@ def locate_property(work_out, check):
     return cands[0][0] if cands else None
 
 
+class MemBudget:
+    """at most `total` GB of CBMC address-space caps running at once (62 GB machine, no swap)"""
+
+    def __init__(self, total):
+        import threading
+        self.total = total
+        self.used = 0
+        self.cv = threading.Condition()
+
+    def acquire(self, gb):
+        gb = min(gb, self.total)
+        with self.cv:
+            while self.used + gb > self.total:
+                self.cv.wait()
+            self.used += gb
+        return gb
+
+    def release(self, gb):
+        with self.cv:
+            self.used -= gb
+            self.cv.notify_all()
+
+
+BUDGET = MemBudget(int(os.environ.get("VERIF_MEM_GB", "54")))
+
+
 def run_harness(name, th, tier, use_memo=True):
     spec = registry.HARNESSES[name]
     project = spec.get("project", "incrate")
@@ -242,8 +267,12 @@ def run_harness(name, th, tier, use_memo=True):
             res.update(status="BROKEN-HARNESS", detail=str(e)[-2000:])
             return res
         uws = unwindset_for(work_out, patterns)
-        r = kdrive.run_cbmc(work_out, unwind, uws, default_checks=default_checks, timeout_s=timeout, mem_gb=mem,
-                            log=os.path.join(wdir, "cbmc.log"))
+        got = BUDGET.acquire(mem)
+        try:
+            r = kdrive.run_cbmc(work_out, unwind, uws, default_checks=default_checks, timeout_s=timeout, mem_gb=mem,
+                                log=os.path.join(wdir, "cbmc.log"))
+        finally:
+            BUDGET.release(got)
         res.update(status=r["status"], wall_s=r["wall_s"], stats=r["stats"], unwind=unwind,
                    unwindset=[[a, b] for a, b in uws], default_checks=default_checks,
                    n_checks=len(r["checks"]), n_success=sum(1 for c in r["checks"] if c["status"] == "SUCCESS"),
@@ -327,10 +356,11 @@ def build_replay(th):
         return bins, None
 
 
-def native_replay(bins, harness_fn, replay_file):
+def native_replay(bins, harness_fn, replay_file, project="incrate"):
     out = {}
     for prof, b in bins.items():
-        r = subprocess.run([b, harness_fn, replay_file], stdout=subprocess.PIPE, stderr=subprocess.STDOUT, text=True)
+        r = subprocess.run([b, harness_fn, replay_file, "ext" if project == "ext" else "incrate"], stdout=subprocess.PIPE,
+                           stderr=subprocess.STDOUT, text=True)
         line = r.stdout.strip().splitlines()[-1] if r.stdout.strip() else ""
         try:
             js = json.loads(line)
@@ -397,7 +427,7 @@ def triage_failure(name, res, th, prop_id):
                "failed_check": c["description"], "location": "%s:%s" % (c["file"], c["line"]), "function": c["function"],
                "values": vals, "replay_cmd": "/verif/bin/check --replay %s" % rfile}
         json.dump(rec, open(rfile, "w"), indent=1)
-        rp = native_replay(bins, rec["harness_fn"], rfile)
+        rp = native_replay(bins, rec["harness_fn"], rfile, rec["project"])
         rec["native"] = rp
         json.dump(rec, open(rfile, "w"), indent=1)
         reproduced = [p for p, o in rp.items() if o.get("exit") == 0]
@@ -578,7 +608,7 @@ def main():
         if bins is None:
             print("replay binary does not build:", err)
             return 2
-        rp = native_replay(bins, rec["harness_fn"], a[1])
+        rp = native_replay(bins, rec["harness_fn"], a[1], rec.get("project", "incrate"))
         print(json.dumps(rp, indent=1))
         return 1 if any(o.get("exit") == 0 for o in rp.values()) else 0
     if a[0] == "--harness":
